@@ -78,7 +78,7 @@ func (w *World) autoStream(r int, shape string, ss grpc.ServerStream) error {
 	go func() {
 		defer wg.Done()
 		for {
-			m := new(Msg)
+			m := staleMsg()
 			w.logf("call who=hr%d op=recv", r)
 			err := ss.RecvMsg(m)
 			if err != nil {
@@ -132,7 +132,7 @@ func (w *World) autoUnary(r int, ctx context.Context, dec func(interface{}) erro
 		tm = encMD(tmd)
 	}
 	w.logf("hstart r=%d shape=U md=%s deadline=none tmd=%s %s", r, encMD(md), tm, peerIcpt(ctx))
-	m := new(Msg)
+	m := staleMsg()
 	w.logf("call who=hr%d op=recv", r)
 	if err := dec(m); err != nil {
 		w.logf("ret who=hr%d op=recv res=%s ctxerr=%s", r, encErr(err), encErr(ctx.Err()))
@@ -212,7 +212,7 @@ func (w *World) autoCall(r int, cc grpc.ClientConnInterface, p *autoPlan, rng *r
 		w.logf("ret who=cr%d op=header res=%s md=-", r, encErr(herr))
 	}
 	for {
-		m := new(Msg)
+		m := staleMsg()
 		w.logf("call who=cr%d op=recv", r)
 		err := st.RecvMsg(m)
 		if err != nil {
@@ -441,6 +441,8 @@ func TestStress(t *testing.T) {
 			runRegistryStress(t, fmt.Sprintf("stress-registry-%d-%d", seed, i), seed+int64(i), bw)
 		case "sender":
 			runSenderStress(fmt.Sprintf("stress-sender-%d-%d", seed, i), seed+int64(i), 3*time.Second, bw)
+		case "closerace":
+			runCloseRace(fmt.Sprintf("stress-closerace-%d-%d", seed, i), seed+int64(i), 30, bw)
 		case "ctor":
 			runCtorStress(fmt.Sprintf("stress-ctor-%d-%d", seed, i), seed+int64(i), 400, bw)
 		}
@@ -547,7 +549,7 @@ func runRegistryStress(t *testing.T, name string, seed int64, bw *bufio.Writer) 
 				w.autoPlans[r] = &autoPlan{shape: "U", cSends: []int{10}, respSz: 10}
 				w.mu.Unlock()
 				var tc grpctunnel.TunnelChannel
-				resp := new(Msg)
+				resp := staleMsg()
 				err := kc.Invoke(context.Background(), fmt.Sprintf("/v.S/U%d", r), &Msg{Value: payloadFor(r, 'c', 0, 10)}, resp, grpctunnel.WithTunnelChannel(&tc))
 				if err != nil {
 					w.logf("harnessfail code=1202 a=%d b=%d", round, i)
